@@ -13,8 +13,8 @@ import (
 
 type c12Spec struct {
 	Name      string
-	NewerLog  int  // 0: equal logs; 1: n1 has records n2 lacks (its stream from the leader is held)
-	AckedLock bool // a lock acknowledged by a majority is taken before the leader dies
+	NewerLog  int   // 0: equal logs; 1: n1 has records n2 lacks (its stream from the leader is held)
+	AckedLock bool  // a lock acknowledged by a majority is taken before the leader dies
 	RestartAt int64 // >0: member n1 is killed and restarted from its saved metadata this long after the leader's death
 }
 
